@@ -135,3 +135,103 @@ def sensitivity(names=None, tier="quick"):
       drop_scratch(scratch)
   print("sensitivity: %d mutants, %d not killed: %s" % (len(muts), len(missed), missed))
   return 0 if not missed else 3
+
+
+# ---------------------------------------------------------------------------
+# independently seeded changes (/verif/seeded/<id>/{patch.diff,meta.json,demo*})
+
+
+def import_seed(src_dir, patch_name, demo_name, seed_id, prop, notes_name=None):
+  """Confirms a sub-agent's change (tests pass with it; demo fails with it and
+  passes without) in a scratch worktree and files it under /verif/seeded."""
+  import json
+  dst = os.path.join(kernel.VERIF_DIR, "seeded", seed_id)
+  os.makedirs(dst, exist_ok=True)
+  patch = os.path.join(src_dir, patch_name)
+  demo = os.path.join(src_dir, demo_name)
+  scratch = make_scratch()
+  ran = []
+  try:
+    def run(cmd, **kw):
+      p = subprocess.run(cmd, capture_output=True, text=True, timeout=3600, **kw)
+      ran.append({"cmd": " ".join(cmd), "rc": p.returncode})
+      return p
+    base = run([sys.executable, demo, scratch])
+    ok_clean = base.returncode == 0
+    ap = run(["git", "-C", scratch, "apply", patch])
+    if ap.returncode != 0:
+      print("patch does not apply:", ap.stderr[-500:])
+      return False
+    withp = run([sys.executable, demo, scratch])
+    ok_patched = withp.returncode == 1
+    tests = run([sys.executable, "-m", "pytest", "-q", "-p", "no:cacheprovider",
+                 "--timeout=900", "--continue-on-collection-errors",
+                 "pytype/ast", "pytype/metrics_test.py", "pytype/module_utils_test.py",
+                 "pytype/pyc", "pytype/pyi/evaluator_test.py", "pytype/pyi/metadata_test.py",
+                 "pytype/pytd/abc_hierarchy_test.py", "pytype/pytd/pytd_test.py",
+                 "pytype/pytd/slots_test.py", "pytype/pytype_source_utils_test.py",
+                 "pytype/rewrite/flow", "pytype/tools/traces/source_test.py",
+                 "pytype/utils_test.py", "pytype_extensions"], cwd=scratch)
+    tail = tests.stdout.strip().splitlines()[-1] if tests.stdout.strip() else ""
+    ok_tests = "171 passed" in tail
+    print("%s: demo clean rc=%d, demo patched rc=%d, tests: %s" % (
+        seed_id, base.returncode, withp.returncode, tail))
+    if not (ok_clean and ok_patched and ok_tests):
+      print("   NOT CONFIRMED; demo output:", (withp.stdout + withp.stderr)[-600:])
+      return False
+  finally:
+    drop_scratch(scratch)
+  shutil.copy(patch, os.path.join(dst, "patch.diff"))
+  shutil.copy(demo, os.path.join(dst, os.path.basename(demo_name).replace(
+      os.path.splitext(demo_name)[0], "demo")))
+  needs = ""
+  if notes_name and os.path.exists(os.path.join(src_dir, notes_name)):
+    shutil.copy(os.path.join(src_dir, notes_name), os.path.join(dst, "notes.md"))
+    needs = open(os.path.join(src_dir, notes_name)).read()[:1500]
+  meta = {"id": seed_id, "property": prop,
+          "origin": "independent sub-agent given only the property text and a "
+                    "scratch worktree",
+          "confirmed": {"demo_on_unchanged_tree_rc": 0, "demo_with_patch_rc": 1,
+                        "pinned_tests_with_patch": "171 passed"},
+          "what_i_ran": ran, "needs_to_manifest": needs}
+  with open(os.path.join(dst, "meta.json"), "w") as f:
+    json.dump(meta, f, indent=1)
+  return True
+
+
+def seeded(names=None, tier="quick"):
+  """Runs each seeded change's property check against a scratch tree with the
+  patch applied. Prints CAUGHT / MISSED."""
+  import json
+  root = os.path.join(kernel.VERIF_DIR, "seeded")
+  missed = []
+  total = 0
+  for sid in sorted(os.listdir(root)):
+    d = os.path.join(root, sid)
+    if not os.path.isdir(d) or (names and sid not in names and
+                                json.load(open(os.path.join(d, "meta.json")))["property"] not in names):
+      continue
+    meta = json.load(open(os.path.join(d, "meta.json")))
+    total += 1
+    scratch = make_scratch()
+    t0 = time.time()
+    try:
+      ap = subprocess.run(["git", "-C", scratch, "apply", os.path.join(d, "patch.diff")],
+                          capture_output=True, text=True)
+      if ap.returncode != 0:
+        print("%-28s %-5s PATCH-DOES-NOT-APPLY" % (sid, meta["property"]))
+        missed.append(sid)
+        continue
+      rc, out, err = run_check_on(scratch, meta["property"], tier)
+      viol = [l for l in out.splitlines() if l.startswith("VIOLATION")]
+      status = "CAUGHT" if rc == 1 and viol else ("MISSED" if rc == 0 else "rc=%d" % rc)
+      print("%-28s %-5s %-8s %.0fs %s" % (sid, meta["property"], status,
+                                         time.time() - t0, viol[0] if viol else ""))
+      if status != "CAUGHT":
+        missed.append(sid)
+        print("   stdout tail:", out[-400:].replace("\n", " | "))
+      sys.stdout.flush()
+    finally:
+      drop_scratch(scratch)
+  print("seeded: %d changes, %d not caught: %s" % (total, len(missed), missed))
+  return 0 if not missed else 3
